@@ -304,6 +304,20 @@ func diffFormatter() *Result {
 		parseAdd(s, 7, "g-cfg")
 		parseAdd(s, 5, "g-cfg")
 	}
+	ncombo := 150
+	if opts.Tier == "thorough" {
+		ncombo = 2000
+	}
+	for _, b := range docCombos(rng, ncombo) {
+		parseAdd(b, 7, "doc-combo")
+	}
+	var pool [][]byte
+	for _, s := range loadCorpus() {
+		pool = append(pool, s.Src)
+	}
+	for _, b := range combineSources(rng, pool, ncombo) {
+		parseAdd(b, 7, "combined")
+	}
 	diffLines(r, lines, real)
 	for _, m := range r.Mismatches {
 		r.fail(Failure{Site: "formatter:model-vs-code", Kind: "tree", Input: clip(m.Op, 3000), Detail: "formatted tree / printed bytes differ: model " + clip(m.Model, 600) + " real " + clip(m.Real, 600)})
